@@ -310,30 +310,51 @@ def gen_filter_bank(rng, tier):
         s, fb = _fb_int(w)
         lvl = level if level is not None else pywt.dwt_max_level(n, pywt.Wavelet(w).dec_len)
         out.append({'cls': 'WaveletOp', 'wavelet': w, 'n': n, 'level': level, 'model_level': lvl, 'scale_exp': s, 'filters': fb})
+    # two dimensions (wavedec2 / waverec2): the 1-D filter bank along the last axis, then along the first
+    fixed2 = [('haar', 4, 6, 1), ('haar', 4, 4, 2), ('db2', 4, 6, 1), ('bior2.2', 6, 6, 1), ('db2', 8, 6, None)]
+    for i in range(len(fixed2) + (3 if tier == 'quick' else 40)):
+        if i < len(fixed2):
+            w, n, n2, level = fixed2[i]
+        else:
+            w = ['haar', 'db2', 'sym2', 'bior1.3', 'db3'][i % 5]
+            L = pywt.Wavelet(w).dec_len
+            n, n2 = 2 * rng.randint(max(1, L // 2), 4), 2 * rng.randint(max(1, L // 2), 4)
+            level = rng.choice([1, 1, None])
+        s, fb = _fb_int(w)
+        lvl = level if level is not None else pywt.dwtn_max_level((n, n2), w)
+        out.append({'cls': 'WaveletOp', 'wavelet': w, 'n': n, 'n2': n2, 'level': level, 'model_level': lvl, 'scale_exp': s, 'filters': fb})
     return out
 
 
 def impl_filter_bank(c):
     import mrpro.operators as ops
-    op = ops.WaveletOp(domain_shape=(c['n'],), dim=(-1,), wavelet_name=c['wavelet'], level=c['level'])
-    F, G, out_shape = opzoo.dense(op, [c['n']], torch.float64)
+    dom = (c['n'],) if 'n2' not in c else (c['n'], c['n2'])
+    op = ops.WaveletOp(domain_shape=dom, dim=tuple(range(-len(dom), 0)), wavelet_name=c['wavelet'], level=c['level'])
+    F, G, out_shape = opzoo.dense(op, list(dom), torch.float64)
     return {'F': np.real(F).T.tolist(), 'G': np.real(G).T.tolist(), 'out': out_shape, 'shapes': [list(map(int, sh)) for sh in op.coefficients_shape]}
 
 
 def coq_filter_bank(c):
     dl, dh, rl, rh = (vlib.zlist(f) for f in c['filters'])
-    A = f'(wavedec_Z {natlit(c["model_level"])} {natlit(len(c["filters"][0]))} {natlit(c["n"])} {dl} {dh} {rl} {rh})'
+    if 'n2' in c:
+        A = f'(wavedec2_Z {natlit(c["model_level"])} {natlit(len(c["filters"][0]))} {natlit(c["n"])} {natlit(c["n2"])} {dl} {dh} {rl} {rh})'
+    else:
+        A = f'(wavedec_Z {natlit(c["model_level"])} {natlit(len(c["filters"][0]))} {natlit(c["n"])} {dl} {dh} {rl} {rh})'
     return f'(dense_fwd {A}, dense_adj {A}, andb (filters_match_b {dl} {rl}) (filters_match_b {dh} {rh}))'
 
 
 def _band_scales(c, ncoef):
     """coefficient j of the stack [a_l, d_l, ..., d_1] went through (level - band + 1) filter stages, each scaled by 2^s"""
     L, n, lvl = len(c['filters'][0]), c['n'], c['model_level']
+    n2, two = c.get('n2', 1), 'n2' in c
     sizes = []
     for _ in range(lvl):
         n = (n + L - 1) // 2
-        sizes.append(n)
-    depth = ([lvl] * sizes[-1] if lvl else []) + [d for d in range(lvl, 0, -1) for _ in range(sizes[d - 1])] if lvl else [0] * c['n']
+        n2 = (n2 + L - 1) // 2 if two else 1
+        sizes.append(n * n2)
+    nb = 3 if two else 1           # detail bands per level; in 2-D every level applies two filter stages
+    k = 2 if two else 1
+    depth = ([k * lvl] * sizes[-1] + [k * d for d in range(lvl, 0, -1) for _ in range(nb * sizes[d - 1])]) if lvl else [0] * (c['n'] * c.get('n2', 1))
     return depth if len(depth) == ncoef else None
 
 
@@ -371,12 +392,12 @@ def oracle_filter_bank(c, o):
     D = np.abs(G - F.T)
     if D.size and D.max() > 1e-9:
         i, j = np.unravel_index(np.argmax(D), D.shape)
-        return f'<A e_{j}, e_{i}> = {F[j, i]} but <e_{j}, A^H e_{i}> = {G[i, j]} (1-D WaveletOp {c["wavelet"]}, n={c["n"]}, level={c["level"]})'
+        return f'<A e_{j}, e_{i}> = {F[j, i]} but <e_{j}, A^H e_{i}> = {G[i, j]} ({"2" if "n2" in c else "1"}-D WaveletOp {c["wavelet"]}, n={c["n"]}{"x" + str(c["n2"]) if "n2" in c else ""}, level={c["level"]})'
     return None
 
 
 def descr_filter_bank(c):
-    d = descr({'cls': 'WaveletOp', 'wavelet': c['wavelet'], 'domain': [c['n']], 'level': c['level']})
+    d = descr({'cls': 'WaveletOp', 'wavelet': c['wavelet'], 'domain': [c['n']] + ([c['n2']] if 'n2' in c else []), 'level': c['level']})
     return d
 
 
@@ -465,5 +486,5 @@ FAMILIES = [
            theorem='(implementation-level identity G = F^H)'),
     Family('wavelet_filter_bank', gen_filter_bank, impl_filter_bank, coq_filter_bank,
            'From MrVerif Require Import Base.Prelude Base.StarRing Base.Sums Model.OpAlg Model.Wavelet.', cmp_filter_bank, oracle_filter_bank,
-           descr=descr_filter_bank, shard=6, theorem='C01_wavelet_multilevel, C01_wavelet_adjoint_iff'),
+           descr=descr_filter_bank, shard=6, theorem='C01_wavelet_multilevel, C01_wavelet_2d, C01_wavelet_adjoint_iff'),
 ]
